@@ -45,6 +45,9 @@ pub struct Profile {
     pub lead_br: bool,
     /// link targets may contain control characters (TAB, LF, DEL, U+0001, U+0085)
     pub href_controls: bool,
+    /// the content of an inline element may begin / end with collapsible white space
+    /// (<a href=x> the docs </a>)
+    pub edge_space: bool,
 }
 
 impl Profile {
@@ -79,6 +82,7 @@ impl Profile {
             a_name: false,
             lead_br: false,
             href_controls: false,
+            edge_space: false,
         }
     }
     pub fn no_tables(mut self) -> Profile {
@@ -275,6 +279,17 @@ impl<'a> DocGen<'a> {
         }
     }
 
+    fn edge_spaces(&mut self, inner: &mut Vec<Node>) {
+        if self.p.edge_space {
+            if self.rng.chance(1, 5) {
+                inner.insert(0, Node::Space);
+            }
+            if self.rng.chance(1, 5) {
+                inner.push(Node::Space);
+            }
+        }
+    }
+
     /// A run of inline content: words separated by spaces, with inline markup.
     pub fn inline_run(&mut self, max_words: usize, depth: usize) -> Vec<Node> {
         let n = self.rng.range(1, max_words.max(1));
@@ -295,14 +310,16 @@ impl<'a> DocGen<'a> {
                     choices.push("del");
                 }
                 let tag = *self.rng.pick(&choices);
-                let inner = self.inline_run(3, depth + 1);
+                let mut inner = self.inline_run(3, depth + 1);
+                self.edge_spaces(&mut inner);
                 let e = self.deco(El::with(tag, inner));
                 out.push(e.node());
                 i += 2;
             } else if self.p.links && !self.in_link && depth < 3 && r < 26 {
                 self.in_link = true;
-                let inner = self.inline_run(2, depth + 1);
+                let mut inner = self.inline_run(2, depth + 1);
                 self.in_link = false;
+                self.edge_spaces(&mut inner);
                 let href = self.href();
                 let e = self.deco(El::with("a", inner).attr("href", &href));
                 out.push(e.node());
